@@ -239,7 +239,7 @@ fn run_history<K: Kmer>(start: &[u8], ops: &[Op]) -> Result<Vec<(K, Seq)>, Strin
     Ok(out)
 }
 
-fn check<K: Kmer + Send + Sync>(c: &Case) -> CheckResult {
+pub fn check<K: Kmer + Send + Sync>(c: &Case) -> CheckResult {
     let a = run_history::<K>(&c.start, &c.h1)?;
     let b = run_history::<K>(&c.start, &c.h2)?;
     // pairwise comparisons across the two histories
@@ -350,6 +350,7 @@ fn build<K: Kmer + Send + Sync + 'static>(name: &'static str, _env: &Env) -> Vec
     .boxed()]
 }
 
+#[cfg(not(fuzzing))]
 pub fn jobs(env: &Env) -> Vec<Box<dyn Job>> {
     let mut out: Vec<Box<dyn Job>> = Vec::new();
     crate::kmers_all!(build, out, env);
